@@ -129,3 +129,26 @@ Example event_before_wildcards :
   base_resolves false L_wild 2 0 = false /\ base_resolves false L_all 2 0 = false /\ base_resolves false L_reexport 2 0 = false /\
   base_resolves false L_from 2 0 = true /\ recognised false L_shadow 2 = true.
 Proof. vm_compute. repeat split; reflexivity. Qed.
+
+(* ------------------------------------------------------------------ finding C18-F12, exactly *)
+(* for all layouts: when the member the module ends up with under the name of the base is the class itself (the class
+   statement re-binds the name it extends, and no later star import takes the name over), the base resolves to the class *)
+Theorem rebinding_resolves_to_self : forall L m md k n old,
+  nth_error L m = Some md -> lookup_e (cname n) (fst (visit md)) = Some old -> e_bind old = BDef k ->
+  (forall line m', In (line, m') (snd (visit md)) ->
+     line <= e_line old \/ match nth_error L m' with Some md' => hidden md' (cname n) = true | None => True end) ->
+  self_resolved true L m k n = true.
+Proof.
+  intros L m md k n old Hm Hl Hb Hst. unfold self_resolved. simpl. unfold scope_at_event.
+  rewrite (expand_keeps L (List.length L) m md (cname n) old Hm Hl Hst), Hb. apply Nat.eqb_refl.
+Qed.
+
+(* `class K0: ...; class K0(K0)` in one module, and `from base import K0; class K0(K0)`; a subclass K2(K0) of the new binding
+   resolves its base to the new binding (whose own MRO raises) *)
+Definition L_rebind_same : layout := [stdm [LStd [0; 1; 2; 3; 4]; LClass 0; LClassAs 1 0; LClass 2]].
+Definition L_rebind_import : layout := [stdm []; stdm [LStd [0; 1; 2; 3; 4]; LClass 0]; stdm [LStd [0; 1; 2; 3; 4]; LFrom 1 0; LClassAs 1 0; LClass 2]].
+Example rebinding_computed :
+  self_resolved true L_rebind_same 0 1 0 = true /\ base_resolves true L_rebind_same 0 0 = false /\ self_resolved true L_rebind_same 0 2 0 = false /\
+  self_resolved true L_rebind_import 2 1 0 = true /\ base_resolves true L_rebind_import 2 0 = false /\
+  self_resolved true L_from 2 1 0 = false /\ base_resolves true L_from 2 0 = true.
+Proof. vm_compute. repeat split; reflexivity. Qed.
